@@ -486,9 +486,14 @@ impl Compiler {
             }
         };
 
-        // Compile the accessor function
+        // Compile the accessor function; like a class accessor it is named after the property
+        let inferred_name = match &prop.key {
+            ObjectPropertyKey::Identifier(id) => Some(id.name.cheap_clone()),
+            ObjectPropertyKey::String(s) => Some(s.value.cheap_clone()),
+            _ => None,
+        };
         let accessor_reg = self.builder.alloc_register()?;
-        self.compile_expression(&prop.value, accessor_reg)?;
+        self.compile_expression_with_inferred_name(&prop.value, accessor_reg, inferred_name)?;
 
         // Create undefined for the other accessor slot
         let undefined_reg = self.builder.alloc_register()?;
@@ -795,8 +800,8 @@ impl Compiler {
         let redirect_reg = self.get_loop_var_redirect(&id.name);
 
         if *op == AssignmentOp::Assign {
-            // Simple assignment
-            self.compile_expression(right, dst)?;
+            // Simple assignment: an anonymous function / class takes the variable's name
+            self.compile_expression_with_inferred_name(right, dst, Some(id.name.cheap_clone()))?;
 
             if let Some(reg) = redirect_reg {
                 // Redirect: write to register instead of environment
